@@ -2,7 +2,7 @@
    Property theorems only; proofs live in Proofs/ManualHeapProofs.v and Proofs/BytesProofs.v.
    Part I: ManualHeap (raw API) and the two program-facing surfaces (builtins, opcodes 28..33).
    Part II: std.bytes. *)
-From Aelys Require Import Base.Tactics Extracted.ManualMem Model.Value Model.ManualHeap Model.Bytes
+From Aelys Require Import Base.Tactics Extracted.ManualMem Extracted.MemChecks Model.Value Model.ManualHeap Model.MemTab Model.Bytes
      Proofs.ValueProofs Proofs.ManualHeapProofs Proofs.BytesProofs.
 Local Open Scope N_scope.
 
@@ -78,6 +78,32 @@ Theorem C09_stale_stays_stale : forall s o h,
   Inv s -> abs s h = None -> snd (mh_step s o) <> ROkHandle h ->
   abs (fst (mh_step s o)) h = None.
 Proof. exact stale_stays_stale_u. Qed.
+
+(* use-after-free and double free as explicit outcomes, for ALL histories: after any history from the
+   empty heap a handle the abstract map does not hold is rejected by every access -- UseAfterFree /
+   DoubleFree when it was ever issued, InvalidHandle when it never was -- and nothing changes *)
+Theorem C09_dead_handle_all_histories : forall os h,
+  let s := mh_exec mh_empty os in
+  let sp := fst (spec_run sp_empty os (snd (mh_run mh_empty os))) in
+  sm_get (live sp) h = None ->
+  let k1 := if mem_N h (issued sp) then EUseAfterFree else EInvalidHandle in
+  let k2 := if mem_N h (issued sp) then EDoubleFree else EInvalidHandle in
+  (forall off, mh_step s (MLoad h off) = (s, RErr k1))
+  /\ (forall off v, mh_step s (MStore h off v) = (s, RErr k1))
+  /\ mh_step s (MSize h) = (s, RErr k1)
+  /\ mh_step s (MFree h) = (s, RErr k2).
+Proof. exact dead_handle_all_histories. Qed.
+
+(* fixed size: nothing but a free of that buffer changes its length, across any history *)
+Theorem C09_size_fixed : forall s o h d,
+  Inv s -> abs s h = Some d -> o <> MFree h ->
+  exists d', abs (fst (mh_step s o)) h = Some d' /\ length d' = length d.
+Proof. exact size_step_fixed. Qed.
+
+Theorem C09_size_fixed_history : forall os s h d,
+  Inv s -> abs s h = Some d -> Forall (fun o => o <> MFree h) os ->
+  mh_size (mh_exec s os) h = ROkSize (N.of_nat (length d)).
+Proof. exact size_history_fixed. Qed.
 
 (* bounds: in range succeeds with the stored value, out of range is OutOfBounds and changes nothing *)
 Theorem C09_bounds : forall s h d off,
@@ -171,7 +197,75 @@ Theorem C09_opcode_free_negative_refuted :
                       /\ vm_step SBuiltin maxh gc s (VFree (AInt z)) = (s, RErr ENegativeIndex).
 Proof. exists 1048576, 0, mh_empty, (-1)%Z. split; [reflexivity|]. split; [exact inv_empty|]. split; reflexivity. Qed.
 
+(* The hand-written surface model IS the step driven by the operand-check tables that the translator
+   regenerates from builtins.rs and memory.inc on every run (which operand, which check, in which
+   order, which error): a changed guard, a swapped order or a different error kind in the source
+   changes the table and breaks this theorem. *)
+Theorem C09_vm_step_is_table_driven : forall sf maxh gc s o,
+  vm_step_tab sf maxh gc s o = vm_step sf maxh gc s o.
+Proof. exact vm_step_tab_eq. Qed.
+
+(* LoadMemI / StoreMemI check their handle exactly as LoadMem / StoreMem do, and VM::manual_heap_error
+   maps each of the five ManualHeapErrors to the RuntimeErrorKind of the same name *)
+Theorem C09_source_tables : source_tables_ok = true.
+Proof. exact source_tables_ok_lemma. Qed.
+
 (* ============================================================================== Part II: std.bytes *)
+
+(* Refinement of std.bytes (ALL 17 operations: alloc free size resize, the 36 sized readers/writers,
+   copy fill clone equals from_string decode write_string find reverse swap) on the VM's resource
+   table (first-free slot reuse) to a finite map handle -> byte array: same answer -- a freed,
+   never-issued or negative handle and a second free are the error outcome --, abstraction commutes,
+   every handle handed out is fresh.  No invariant is needed. *)
+Theorem C09_bytes_refines : forall s m o,
+  BSim s m ->
+  snd (bspec_step m o (snd (b_step s o))) = snd (b_step s o)
+  /\ BSim (fst (b_step s o)) (fst (bspec_step m o (snd (b_step s o)))).
+Proof. exact b_refines_lemma. Qed.
+
+Theorem C09_bytes_refines_history : forall os,
+  snd (bspec_run [] os (snd (b_run bs_empty os))) = snd (b_run bs_empty os)
+  /\ BSim (b_exec bs_empty os) (fst (bspec_run [] os (snd (b_run bs_empty os)))).
+Proof. intro os. exact (b_refines_history_lemma os bs_empty [] bsim_empty). Qed.
+
+(* the implementation never gives an answer the specification objects to *)
+Theorem C09_bytes_never_bad : forall s o, snd (b_step s o) <> BBad.
+Proof. exact b_step_not_bad. Qed.
+
+(* The whole manual-memory state of a VM (manual heap + byte buffers) under arbitrarily interleaved
+   operations refines the pair of maps, for every history from the empty state; the two halves
+   never touch each other. *)
+Theorem C09_mem_refines : forall st sp o,
+  MemInv st -> MemSim st sp ->
+  MemInv (fst (mem_step st o))
+  /\ snd (memspec_step sp o (snd (mem_step st o))) = snd (mem_step st o)
+  /\ MemSim (fst (mem_step st o)) (fst (memspec_step sp o (snd (mem_step st o)))).
+Proof. exact mem_refines_lemma. Qed.
+
+Theorem C09_mem_refines_history : forall os,
+  MemInv (mem_exec mem_empty os)
+  /\ snd (memspec_run memspec_empty os (snd (mem_run mem_empty os))) = snd (mem_run mem_empty os)
+  /\ MemSim (mem_exec mem_empty os) (fst (memspec_run memspec_empty os (snd (mem_run mem_empty os)))).
+Proof. intro os. exact (mem_refines_history_lemma os mem_empty memspec_empty (proj1 mem_empty_ok) (proj2 mem_empty_ok)). Qed.
+
+Theorem C09_mem_independent : forall st o,
+  (forall m, o = OpM m -> snd (fst (mem_step st o)) = snd st)
+  /\ (forall b, o = OpB b -> fst (fst (mem_step st o)) = fst st).
+Proof. exact mem_independent. Qed.
+
+(* what was written is read back also after any later history that does not write that buffer *)
+Theorem C09_rw_roundtrip_history : forall s w sg be h off v s1 os,
+  b_step s (BWrite w sg be h off v) = (s1, BOkUnit) ->
+  Forall (fun o => bop_writes o <> Some h) os ->
+  snd (b_step (b_exec s1 os) (BRead w (if sg then 1 else 0) be h off)) = BOkWord (v_int v).
+Proof. exact rw_roundtrip_history_lemma. Qed.
+
+(* only resize and free change the length of a byte buffer *)
+Theorem C09_bytes_size_fixed : forall s o k d,
+  get_buf s k = Some d ->
+  (forall n, o <> BResize (Z.of_N k) n) -> o <> BFree (AInt (Z.of_N k)) ->
+  exists d', get_buf (fst (b_step s o)) k = Some d' /\ length d' = length d.
+Proof. exact b_size_fixed_lemma. Qed.
 
 (* write then read, every width / signedness / byte order of the table extracted from bytes.rs:
    the reader of the same shape returns Value::int(v) for every accepted v ... *)
@@ -303,7 +397,11 @@ Example C09_nonvacuous_bytes :
   snd (b_run bs_empty
          [BAlloc 8; BAlloc 4; BWrite 4 false true 0 2 3735928559; BRead 4 0 true 0 2; BRead 2 0 false 0 2;
           BWrite 2 true false 1 3 (-2); BWrite 2 true false 1 2 (-2); BRead 2 1 false 1 2;
-          BFill 0 0 3 255; BCopy 0 1 0 2 5; BRead 1 0 false 0 6; BFree (AInt 0); BRead 1 0 false 0 0; BAlloc 2])
+          BFill 0 0 3 255; BCopy 0 1 0 2 5; BRead 1 0 false 0 6; BFree (AInt 0); BRead 1 0 false 0 0; BAlloc 2;
+          BFromString [104; 105; 33]; BClone 2; BEquals 2 3; BSwap 3 0 2; BEquals 2 3; BDecode 3 0 3; BReverse 3 0 3;
+          BFind 3 0 (-1) 33; BWriteString 3 1 [195; 169]; BDecode 3 0 3; BDecode 3 0 2; BFree (AInt 2); BClone 2])
   = [BOkInt 0; BOkInt 1; BOkUnit; BOkWord (v_int 3735928559); BOkWord (v_int 44510); BErr; BOkUnit;
-     BOkWord (v_int (-2)); BOkUnit; BOkUnit; BOkWord (v_int 239); BOkUnit; BErr; BOkInt 0].
+     BOkWord (v_int (-2)); BOkUnit; BOkUnit; BOkWord (v_int 239); BOkUnit; BErr; BOkInt 0;
+     BOkInt 2; BOkInt 3; BOkWord (v_bool true); BOkUnit; BOkWord (v_bool false); BOkStr [33; 105; 104]; BOkUnit;
+     BOkInt 2; BOkInt 2; BOkStr [104; 195; 169]; BErr; BOkUnit; BErr].
 Proof. vm_compute. reflexivity. Qed.
